@@ -102,6 +102,11 @@ CHECKS = {
             "Generated CPU-less SoCCores (wishbone/axi-lite/axi x 32/64-bit bus x shared/crossbar x CSR paging x CSR address width x CSR origin x 1..4 peripherals with generated storages/statuses of 1..70 bits and CSR-mapped memories, fixed CSR slots, SRAM sizes) are finalised, exported with the real get_csr_header / get_csr_json / get_csr_csv, and simulated with a test master attached through the SoC's own adapter path: every published writable register is written through its accessor sequence and its storage signal must hold the value while all other storages keep theirs; every drivable status is read back through its published sequence; CSR memory windows and the SRAM region are accessed at first/last word; header, JSON and CSV must agree; CONFIG_CSR_DATA_WIDTH must match. Images: get_mem_data for generated files, widths 32/64/128, both endiannesses, multi-region maps: every source byte at word (base+k)//B, lane per endianness.",
             "Trusted: Migen's simulator, tracer shim, the regex parser of the generated header. Known findings excluded by construction and replayed: csr_data_width=8 stride, little ordering vs big-endian accessors, big-endian images wider than 32 bit. SVD, interrupt numbers (needs a CPU) and linker regions are not yet part of the check.",
             "DESIGN.md section 4 / C14"),
+    "C05": ("exploration",
+            "property-based testing (Hypothesis) + enumeration of clock phase relations: generated edge interleavings with per-bit first-flop resolution injected into every MultiReg; FIFO prefix relation, 'only real words' invariant, scoreboards",
+            "The simulator's time manager is replaced by a generated list of instants (which domains rise together): periodic clocks at ratios 1/8..8 with every offset, near-equal periods drifting through all phases, bursts, alternation, coincidence runs, random instants. Every MultiReg is lowered flop-for-flop as stock, and whenever its input changes in the instant its destination clock rises, the first flop is patched to a generated per-bit mixture of exactly the values before and after that instant. DUTs: stream.ClockDomainCrossing (depth 4/8/16, buffered, common reset with derived domains ticked and reset pulses with tokens in flight), AsyncFIFO, UART FIFOs across domains, BusSynchronizer (widths 1..16, ratio <= 3, timeout > round trip): output only ever shows words the input really held, in order, and converges; AXILiteClockDomainCrossing with master and slave agents in different domains; stream.Monitor pulse paths; UARTBone(cd != sys). Conformance: Migen's healthy AsyncFIFO survives the injection; a plain multi-bit MultiReg in place of BusSynchronizer is caught.",
+            "Trusted: Migen's simulator; metastability lasts at most one destination cycle (what a two-flop synchroniser assumes); AsyncResetSynchronizer is modelled as a synchronous reset by the simulator. Known finding (Monitor status words cross through a plain MultiReg) is keyed and replayed.",
+            "DESIGN.md section 4 / C05, section 10.6"),
 }
 
 NOT_YET = {}
